@@ -51,6 +51,8 @@ type Scenario struct {
 	HostKey     bool              `json:"hostkey,omitempty"`
 	EnablePass  bool              `json:"enable_pass,omitempty"`
 	Faults      []FaultSpec       `json:"faults,omitempty"`
+	// PAN-OS: "first" = only the first vsys lacks the marker, the others carry it.
+	MarkerVsys string `json:"marker_vsys,omitempty"`
 	// NSX: objects on the manager whose ids lack the Netspoc prefix (raw JSON).
 	ForeignGroups   []string            `json:"foreign_groups,omitempty"`
 	ForeignServices []string            `json:"foreign_services,omitempty"`
